@@ -14,12 +14,12 @@ import (
 
 // Root is one exploration root: a harness function with concrete parameters.
 type Root struct {
-	Prop    string
-	Harness string
-	Params  []int
-	MaxDecs int // bound on decisions per path (unwinding bound)
+	Prop     string
+	Harness  string
+	Params   []int
+	MaxDecs  int // bound on decisions per path (unwinding bound)
 	MaxSteps int
-	Note    string
+	Note     string
 }
 
 func (r Root) Key() string {
@@ -54,19 +54,19 @@ type workItem struct {
 }
 
 type Explorer struct {
-	P        *Prog
-	roots    []Root
-	results  []*RootResult
-	workers  int
-	solverKind string
-	timeoutMs int
-	maxPathsPerRoot int
+	P                 *Prog
+	roots             []Root
+	results           []*RootResult
+	workers           int
+	solverKind        string
+	timeoutMs         int
+	maxPathsPerRoot   int
 	maxWitnessPerRoot int
-	deadline time.Time
-	stats    SolverStats
-	statsMu  sync.Mutex
-	verbose  bool
-	stopOnFail bool
+	deadline          time.Time
+	stats             SolverStats
+	statsMu           sync.Mutex
+	verbose           bool
+	stopOnFail        bool
 }
 
 func (x *Explorer) Run() {
